@@ -259,6 +259,7 @@ func runC02(c *Ctx) {
 
 	// ------------------------------------------------------------------ (5)
 	s.checkStopSetsFlagFirst(c, "stop-sets-flag-first")
+	s.checkShutdownFlagsAllFirst(c, "shutdown-flags-all-first")
 
 	// ------------------------------------------------------------------ (6)
 	s.checkStopCoreTable(c, "internal-stop-keeps-policy", "internal")
